@@ -113,8 +113,13 @@ fn replace_one<'n, D: Doc>(
       // $C is matched in rewriter but is NOT inherited in recursive rewriter
       // this is to enable recursive rewriter to match sub nodes
       // in future, we can use the explict `expose` to control env inheritance
-      if let Some(n) = rule.do_match(child.clone(), &mut env, Some(ctx.enclosing_env)) {
-        let nm = NodeMatch::new(n, env.into_owned());
+      if rule
+        .do_match(child.clone(), &mut env, Some(ctx.enclosing_env))
+        .is_some()
+      {
+        // the rewritten node is the sub node the rule was asked about: a rule made of a bare
+        // relation returns the related node, which may lie outside the text being rewritten
+        let nm = NodeMatch::new(child.clone(), env.into_owned());
         edits.push(nm.make_edit(rule, rule.fixer.as_ref().expect("rewriter must have fix")));
         // stop at first fix, skip duplicate fix
         break;
